@@ -42,7 +42,7 @@ CLANG_FLAGS = ["-std=c++2b", "-fopenmp", "-fsyntax-only", "-DFMT_HEADER_ONLY=1",
 # build configurations that change the code inside a region (preprocessor conditionals inside the function)
 CONFIGS = [("", []), ("fib", ["-DTAPKEE_USE_FIBONACCI_HEAP"])]
 KNOWN_CONFIG_MACROS = {"TAPKEE_USE_PRIORITY_QUEUE", "TAPKEE_USE_FIBONACCI_HEAP"}
-TRANSLATOR_VERSION = "8"
+TRANSLATOR_VERSION = "9"
 
 
 class Unsupported(Exception):
@@ -209,7 +209,8 @@ def parse_clauses(text):
     return words, clauses
 
 
-KNOWN_DIRECTIVES = {("parallel",), ("for",), ("parallel", "for"), ("critical",), ("barrier",)}
+KNOWN_DIRECTIVES = {("parallel",), ("for",), ("parallel", "for"), ("critical",), ("barrier",), ("atomic",)}
+ATOMIC_WORDS = {"update", "read", "write", "capture", "seq_cst", "relaxed", "acq_rel", "acquire", "release", "hint"}
 DATA_PRIVATE = {"private", "firstprivate", "lastprivate", "linear"}
 
 
@@ -344,6 +345,10 @@ VIEW_OTHER = {"noalias", "array", "matrix", "transpose", "adjoint", "block", "ri
               "bottomRows", "middleCols", "middleRows", "head", "tail", "segment", "diagonal", "selfadjointView",
               "triangularView", "eval", "derived", "const_cast_derived", "topLeftCorner", "bottomRightCorner",
               "at", "front", "back", "data", "begin", "end", "rbegin", "rend", "coeffRef", "real", "imag"}
+# containers whose elements are not separately addressable memory locations (bit-packed) or whose element access may
+# restructure the container: a WRITE through them is a write to the whole container
+WHOLE_WRITE_TYPES = re.compile(r"std::vector<bool\b|std::bitset|std::_Bit|std::map\b|std::unordered_map|std::multimap|"
+                               r"std::set\b|std::unordered_set|std::multiset|std::list\b|std::forward_list|std::deque\b")
 APPEND_METHODS = {"push_back", "emplace_back"}
 APPEND_FUNCS = {"back_inserter"}
 CONTAINER_TYPES = re.compile(r"Eigen::|std::vector|std::array|std::deque|std::map|std::unordered_map|std::basic_string|"
@@ -366,6 +371,11 @@ GENERIC_STMTS = {"CompoundStmt", "IfStmt", "WhileStmt", "DoStmt", "SwitchStmt", 
 
 def qual(n):
     return (n.get("type") or {}).get("qualType", "")
+
+
+def qual_full(n):
+    t = n.get("type") or {}
+    return "%s | %s" % (t.get("qualType", ""), t.get("desugaredQualType", ""))
 
 
 def is_const_type(t):
@@ -417,6 +427,12 @@ class Walker:
         self.loop_count = 0
         self.after_nowait_loop = False
         self.cur_top = None
+        self.loops = []                     # worksharing loops of the region, in order
+        self.cur_loop = None
+        self.phase = 0                      # barrier-separated phases of the region
+        self.sync = None                    # "critical" | "atomic" while inside such a construct
+        self.tid_vars = set()               # private ints holding omp_get_thread_num()
+        self.reductions = []                # (decl id, name, clause text, loop index)
 
     # ---------------------------------------------------------------- helpers
     def where(self, n):
@@ -451,6 +467,8 @@ class Walker:
         """(clause-less children = associated statement, parsed clauses) of an OMP directive"""
         p = self.pragma_of(n)
         words, clauses = parse_clauses(p["text"])
+        if words and words[0] == "atomic" and all(x in ATOMIC_WORDS for x in words[1:]):
+            words = ["atomic"]
         if tuple(words) not in KNOWN_DIRECTIVES:
             self.fail(n, "unsupported OpenMP directive `omp %s`" % " ".join(words))
         self.clause_text.append("%s:%d omp %s" % (os.path.basename(p["file"]), p["line"], p["text"]))
@@ -477,7 +495,7 @@ class Walker:
                 body = {"kind": "CompoundStmt", "inner": [body]}
             for st in self.kids(body):
                 self.region_stmt(st)
-        if self.loop is None:
+        if not self.loops:
             self.fail(self.par, "parallel region without a worksharing loop")
         return self
 
@@ -521,6 +539,8 @@ class Walker:
                             self.private_why[i] = "%s(%s) clause" % (c, a)
                     if c == "reduction":
                         self.flags.add("reduction:" + a)
+                        for i in ids:
+                            self.reductions.append((i, nm, "reduction(%s)" % a, len(self.loops)))
                     if c in ("lastprivate", "linear"):
                         self.flags.add(c + ":" + nm)
             elif c == "default":
@@ -544,14 +564,14 @@ class Walker:
             p, words, clauses, stmts = self.directive_parts(st)
             self.check_loop_clauses(clauses, st)
             self.apply_data_clauses(clauses, st)
-            if self.loop_count >= 1:
-                self.fail(st, "second worksharing loop in one parallel region (cross-loop dependences through "
-                              "`nowait`/barriers are not modelled)")
             self.omp_for(self.captured_body(stmts[0]), st)
-            self.after_nowait_loop = any(c == "nowait" for c, _ in clauses)
-            if not self.after_nowait_loop:
-                self.flags.add("barrier-after-loop")
-        elif k and k.startswith("OMP") and k != "OMPCriticalDirective":
+            self.loops[-1]["nowait"] = any(c == "nowait" for c, _ in clauses)
+            if not self.loops[-1]["nowait"]:
+                self.phase += 1         # implicit barrier at the end of the loop
+        elif k == "OMPBarrierDirective":
+            self.directive_parts(st)
+            self.phase += 1
+        elif k and k.startswith("OMP") and k not in ("OMPCriticalDirective", "OMPAtomicDirective"):
             self.fail(st, "unsupported OpenMP construct %s inside a parallel region" % k)
         else:
             # executed by every thread of the team, concurrently with the loop iterations of other threads
@@ -582,11 +602,8 @@ class Walker:
         cl, cr = self.kids(cond)
         if not self.is_ref_to(cl, vid):
             self.fail(cond, "worksharing loop condition does not test the loop variable on the left")
-        ok_inc = (inc.get("kind") == "UnaryOperator" and inc.get("opcode") == "++" and self.is_ref_to(self.kids(inc)[0], vid)) \
-            or (inc.get("kind") == "CompoundAssignOperator" and inc.get("opcode") == "+=" and self.is_ref_to(self.kids(inc)[0], vid)
-                and strip_expr(self.kids(inc)[1]).get("kind") == "IntegerLiteral" and int(strip_expr(self.kids(inc)[1])["value"]) > 0)
-        if not ok_inc:
-            self.fail(inc, "worksharing loop increment is not `++var` / `var++` / `var += c`")
+        if not self.is_increment(inc, vid):
+            self.fail(inc, "worksharing loop increment is not `++var` / `var++` / `var += c` / `var = var + c`")
         if self.modified_in(vid, body):
             self.fail(body, "worksharing loop variable is modified in the loop body")
         # the iteration variable of the associated loop is private (OpenMP 5.0 §2.19.1.1), wherever it is declared
@@ -595,15 +612,38 @@ class Walker:
             self.private_why[vid] = "worksharing loop iteration variable"
         self.loop = {"var": vid, "name": var.get("name", "?"), "lo": lo, "hi": cr, "strict": cond["opcode"] == "<",
                      "lo_text": self.src.text(lo), "hi_text": self.src.text(cr),
-                     "line": self.src.line(loop), "file": self.src.file(loop)}
+                     "line": self.src.line(loop), "file": self.src.file(loop), "phase": self.phase, "nowait": True,
+                     "index": len(self.loops)}
+        self.loops.append(self.loop)
         # bounds are evaluated once by the encountering thread
         self.in_loop = False
         self.cur_top = loop
         self.expr(lo, "R")
         self.expr(cr, "R")
         self.in_loop = True
+        self.cur_loop = self.loop["index"]
         self.stmt(body)
         self.in_loop = False
+        self.cur_loop = None
+
+    def is_increment(self, inc, vid):
+        """`++v`, `v++`, `v += c`, `v = v + c`, `v = c + v` with a positive literal c"""
+        k = inc.get("kind")
+        kids = self.kids(inc)
+
+        def poslit(n):
+            n = strip_expr(n)
+            return n.get("kind") == "IntegerLiteral" and int(n["value"]) > 0
+        if k == "UnaryOperator" and inc.get("opcode") == "++" and self.is_ref_to(kids[0], vid):
+            return True
+        if k == "CompoundAssignOperator" and inc.get("opcode") == "+=" and self.is_ref_to(kids[0], vid) and poslit(kids[1]):
+            return True
+        if k == "BinaryOperator" and inc.get("opcode") == "=" and self.is_ref_to(kids[0], vid):
+            r = strip_expr(kids[1])
+            if r.get("kind") == "BinaryOperator" and r.get("opcode") == "+":
+                a, b = self.kids(r)
+                return (self.is_ref_to(a, vid) and poslit(b)) or (self.is_ref_to(b, vid) and poslit(a))
+        return False
 
     def is_ref_to(self, n, vid):
         n = strip_expr(n)
@@ -663,9 +703,25 @@ class Walker:
                 self.fail(n, "critical sections with different names in one region (they do not exclude each other)")
             self.critical_name = name
             self.in_critical = name
+            self.sync = "critical"
             for s in stmts:
                 self.stmt(self.captured_body(s))
             self.in_critical = None
+            self.sync = None
+        elif k == "OMPAtomicDirective":
+            # an atomic update / read / write of one location is a synchronised access to it: modelled like a critical
+            # section (atomic and critical do NOT exclude each other: an array touched under both is refused below)
+            self.directive_parts(n)
+            if self.in_critical is not None:
+                self.fail(n, "atomic inside a critical section")
+            body = [c for c in self.kids(n) if c.get("kind")]
+            if not body:
+                self.fail(n, "atomic directive without a statement")
+            self.in_critical = "<atomic>"
+            self.sync = "atomic"
+            self.stmt(self.captured_body(body[0]))
+            self.in_critical = None
+            self.sync = None
         elif k.startswith("OMP"):
             self.fail(n, "unsupported OpenMP construct %s" % k)
         elif k == "CapturedStmt":
@@ -693,10 +749,23 @@ class Walker:
             elif root is not None and root[0] in self.alias:
                 a = self.alias[root[0]]
                 self.alias[d["id"]] = (a[0], a[1] + root[1], a[2] or is_const_type(t))
+        if ini and self.is_tid_expr(ini[0]) and not self.modified_in(d["id"], self.captured_body(
+                [c for c in self.par.get("inner", []) if c.get("kind") in ("CapturedStmt", "CompoundStmt", "ForStmt")][0])):
+            self.tid_vars.add(d["id"])
         for c in ini:
             # binding a non-const reference / taking a pointer does not access the object yet; later uses do
             self.cur_top = d
             self.expr(c, "R")
+
+    def is_tid_expr(self, n):
+        """omp_get_thread_num(), or a private variable that holds it unmodified"""
+        n = strip_expr(n)
+        if n.get("kind") == "CallExpr" and self.kids(n):
+            c = self.callee_decl(self.kids(n)[0])
+            return c.get("kind") == "DeclRefExpr" and c.get("referencedDecl", {}).get("name") == "omp_get_thread_num"
+        if n.get("kind") == "DeclRefExpr":
+            return n.get("referencedDecl", {}).get("id") in self.tid_vars
+        return False
 
     def for_stmt(self, n):
         init, cv, cond, inc, body = (self.kids(n) + [{}] * 5)[:5]
@@ -732,7 +801,7 @@ class Walker:
             return None
         if not (cond.get("kind") == "BinaryOperator" and cond.get("opcode") in ("<", "<=") and self.is_ref_to(self.kids(cond)[0], var)):
             return None
-        if not (inc.get("kind") == "UnaryOperator" and inc.get("opcode") == "++" and self.is_ref_to(self.kids(inc)[0], var)):
+        if not self.is_increment(inc, var):
             return None
         if self.modified_in(var, body):
             return None
@@ -753,17 +822,30 @@ class Walker:
             self.raw, self.reentrant = saved
         return acc[0] if acc else None
 
+    def raw_entry(self, decl, dims, mode, n):
+        return {"decl": decl, "dims": tuple(dims), "mode": mode, "node": n, "top": self.cur_top,
+                "critical": self.in_critical is not None, "sync": self.sync, "in_loop": self.in_loop,
+                "loop": self.cur_loop, "phase": self.phase, "guards": list(self.guards)}
+
     def record(self, n, decl, dims, mode, probe=None):
         did = decl["id"]
         if probe is not None and not probe:
             probe.append((did, tuple(dims)))
+        # a slot indexed by the thread number is owned by one thread: iterations of one thread do not overlap in time,
+        # different threads use different slots (treated like thread-private scratch, and named in the table)
+        if dims and dims[0][0] == "sub" and self.is_tid_expr(dims[0][1][0]) and did not in self.private:
+            self.flags.add("per-thread-slot:%s[omp_get_thread_num()]" % decl.get("name", "?"))
+            self.per_thread_slots = getattr(self, "per_thread_slots", set()) | {decl.get("name", "?")}
+            return
+        if mode != "R" and WHOLE_WRITE_TYPES.search(qual_full(decl) or ""):
+            # bit-packed / node-based container: neighbouring elements share memory words or the structure itself
+            dims = (("opaque",),)
+            self.flags.add("whole-container-write:" + decl.get("name", "?"))
         if did in self.private:
             if did in self.alias:
                 root, adims, aconst = self.alias[did]
                 m = "R" if aconst and mode != "A" else mode
-                self.raw.append({"decl": root, "dims": tuple(adims) + tuple(dims), "mode": m, "node": n, "top": self.cur_top,
-                                 "critical": self.in_critical is not None, "in_loop": self.in_loop,
-                                 "guards": list(self.guards)})
+                self.raw.append(self.raw_entry(root, tuple(adims) + tuple(dims), m, n))
             return
         if decl.get("kind") not in ("VarDecl", "ParmVarDecl"):
             return
@@ -772,8 +854,7 @@ class Walker:
         self.decl_type.setdefault(did, t)
         if is_const_type(t) and mode != "R":
             mode = "R"
-        self.raw.append({"decl": did, "dims": tuple(dims), "mode": mode, "node": n, "top": self.cur_top,
-                         "critical": self.in_critical is not None, "in_loop": self.in_loop, "guards": list(self.guards)})
+        self.raw.append(self.raw_entry(did, dims, mode, n))
 
     def is_callback_call(self, n):
         callee = self.callee_decl(self.kids(n)[0])
@@ -1193,23 +1274,51 @@ def lean_list(xs):
     return "[" + ", ".join(xs) + "]"
 
 
-def finish_region(w, name):
+def finish_regions(w, base):
+    """one table per worksharing loop of the parallel region (loops separated by a barrier are independent phases; loops
+    that may overlap through `nowait` see each other's accesses as `foreign`)"""
+    out = []
+    # statements executed by every thread in a phase that has no loop
+    phases_with_loop = {L["phase"] for L in w.loops}
+    for a in w.raw:
+        if a["loop"] is None and a["phase"] not in phases_with_loop and a["mode"] != "R" and not a["critical"]:
+            raise Unsupported("statement executed by every thread of the team (no worksharing loop in its barrier phase) writes "
+                              "the shared variable %s at %s in %s" % (w.decl_name.get(a["decl"], "?"), w.where(a["node"]), w.func))
+    for L in w.loops:
+        name = base if len(w.loops) == 1 else "%s_loop%d" % (base, L["index"] + 1)
+        w.loop = L
+        sel = []
+        for a in w.raw:
+            if a["loop"] == L["index"]:
+                sel.append((a, False))
+            elif a["loop"] is None and a["phase"] == L["phase"]:
+                sel.append((a, False))
+            elif a["loop"] is not None and w.loops[a["loop"]]["phase"] == L["phase"]:
+                sel.append((a, True))
+        out.append(finish_region(w, name, L, sel))
+    return out
+
+
+def finish_region(w, name, L, sel):
     """second pass: classify variables, translate index expressions, dedupe"""
-    written = {a["decl"] for a in w.raw if a["mode"] in ("W", "RW", "A")}
+    written = {a["decl"] for a, _ in sel if a["mode"] in ("W", "RW", "A")}
     ictx = IndexCtx(w, written)
-    lo = ictx.invariant(w.loop["lo"])
-    hi = ictx.invariant(w.loop["hi"])
-    if not w.loop["strict"]:
+    lo = ictx.invariant(L["lo"])
+    hi = ictx.invariant(L["hi"])
+    if not L["strict"]:
         hi = ("add", hi, ("lit", 1))
     arrays = []
     accesses = []
     seen = set()
-    for a in w.raw:
+    sync_of = {}
+    for a, foreign in sel:
         if a["decl"] not in written:
             continue
         nm = w.decl_name[a["decl"]]
         if nm not in arrays:
             arrays.append(nm)
+        if a["critical"]:
+            sync_of.setdefault(nm, set()).add(a.get("sync") or "critical")
         vars_ = []
         rown, coln = dims_to_rc(a["dims"])
         row = ictx.ix(rown, vars_) if rown is not None else None
@@ -1235,27 +1344,42 @@ def finish_region(w, name):
         kind = {"R": "read", "W": "write", "RW": "write", "A": "append"}[a["mode"]]
         gtxt = " && ".join("decide (%s ≤ %s) && decide (%s %s %s)" % (
             lean_term(g[0]), lean_term(g[1]), lean_term(g[1]), "<" if g[3] else "≤", lean_term(g[2])) for g in guards) or "true"
-        key = (nm, kind, a["critical"], a["in_loop"], lean_ix(row), lean_ix(col), gtxt, tuple(vars_))
+        key = (nm, kind, a["critical"], a["in_loop"], foreign, lean_ix(row), lean_ix(col), gtxt, tuple(vars_))
         srcs = "%s:%s %s" % (os.path.basename(w.src.file(a["node"]) or "?"), w.src.line(a["node"]),
                              stmt_text(w, a.get("top") or a["node"]))
         if key in seen:
             continue
         seen.add(key)
         accesses.append({"arr": arrays.index(nm), "arrName": nm, "kind": kind, "critical": a["critical"],
-                         "inLoop": a["in_loop"], "vars": vars_, "guard": gtxt, "row": lean_ix(row), "col": lean_ix(col),
-                         "src": srcs, "rw": a["mode"]})
-    shared_ro = sorted({w.decl_name[a["decl"]] for a in w.raw if a["decl"] not in written})
-    f = w.loop["file"]
+                         "inLoop": a["in_loop"], "foreign": foreign, "vars": vars_, "guard": gtxt, "row": lean_ix(row),
+                         "col": lean_ix(col), "src": srcs + (" [atomic]" if a.get("sync") == "atomic" else ""), "rw": a["mode"]})
+    # reduction(op: x): every thread accumulates into a private copy and combines it into x at the end, under the
+    # runtime's lock: one critical append of the partial result per thread
+    for (did, nm, text, li) in w.reductions:
+        if nm not in arrays:
+            arrays.append(nm)
+        sync_of.setdefault(nm, set()).add("reduction")
+        accesses.append({"arr": arrays.index(nm), "arrName": nm, "kind": "append", "critical": True, "inLoop": False,
+                         "foreign": False, "vars": [], "guard": "true", "row": "none", "col": "none",
+                         "src": "%s: combination of the private copies" % text, "rw": "A"})
+    for nm, kinds in sync_of.items():
+        if len(kinds) > 1:
+            raise Unsupported("shared variable %s is accessed under different synchronisation constructs %s in %s "
+                              "(they do not exclude each other)" % (nm, sorted(kinds), w.func))
+    shared_ro = sorted({w.decl_name[a["decl"]] for a, _ in sel if a["decl"] not in written})
+    f = L["file"]
     return {
         "name": name, "file": os.path.relpath(f, w.repo) if f else "?", "func": w.func, "config": w.cfg,
         "line": w.src.line(w.par),
-        "loopVar": w.loop["name"], "loopLo": w.loop["lo_text"], "loopHi": w.loop["hi_text"] + ("" if w.loop["strict"] else " (inclusive)"),
+        "loopVar": L["name"], "loopLo": L["lo_text"], "loopHi": L["hi_text"] + ("" if L["strict"] else " (inclusive)"),
         "syms": ictx.syms, "lo": lean_term(lo), "hi": lean_term(hi), "arrays": arrays,
-        "privateVars": sorted(set("%s — %s" % (w.private[i], w.private_why[i]) for i in w.private)),
+        "privateVars": sorted(set("%s — %s" % (w.private[i], w.private_why[i]) for i in w.private) |
+                              set("%s[omp_get_thread_num()] — per-thread slot" % n for n in getattr(w, "per_thread_slots", set()))),
         "privateNames": sorted(set(w.private.values())),
         # thread-private scratch that outlives an iteration (declared between `omp parallel` and the loop)
-        "carriedScratch": sorted(set(w.private[i] for i in w.private if i != w.loop["var"] and w.decl_line.get(i)
-                                     and w.decl_line[i] < (w.loop["line"] or 0))),
+        "carriedScratch": sorted(set(w.private[i] for i in w.private if i != L["var"] and w.decl_line.get(i)
+                                     and w.decl_line[i] < (L["line"] or 0)) |
+                                 set("%s[tid]" % n for n in getattr(w, "per_thread_slots", set()))),
         "sharedReadOnly": shared_ro, "reentrantCalls": sorted(set(w.reentrant)), "clauses": w.clause_text,
         "flags": sorted(w.flags), "accesses": accesses,
     }
@@ -1339,7 +1463,7 @@ def analyse(repo, cache_dir, log=lambda *a: None):
                 used[(cfg_name, u[0], u[1])] = True
             base = fn if len(found) == 1 else "%s_%d" % (fn, idx + 1)
             name = base + ("_" + cfg_name if cfg_name else "")
-            regions.append(finish_region(w, name))
+            regions.extend(finish_regions(w, name))
     # every pragma of the token scan must have been accounted for in the default configuration ...
     for p in pragmas:
         if not used.get(("", p["file"], p["line"])):
@@ -1385,9 +1509,9 @@ def emit_lean(pragmas, regions):
         o.append("  clauses := %s" % lean_list(lean_str(s) for s in r["clauses"] + ["flag " + f for f in r["flags"]]))
         o.append("  accesses := [")
         for k, a in enumerate(r["accesses"]):
-            o.append("    { arr := %d, arrName := %s, kind := .%s, critical := %s, inLoop := %s," % (
+            o.append("    { arr := %d, arrName := %s, kind := .%s, critical := %s, inLoop := %s,%s" % (
                 a["arr"], lean_str(a["arrName"]), a["kind"], "true" if a["critical"] else "false",
-                "true" if a["inLoop"] else "false"))
+                "true" if a["inLoop"] else "false", " foreign := true," if a.get("foreign") else ""))
             o.append("      vars := %s," % lean_list(lean_str(v) for v in a["vars"]))
             o.append("      guard := fun s v i => %s," % a["guard"])
             o.append("      row := fun s v i => %s," % a["row"])
@@ -1402,6 +1526,31 @@ def emit_lean(pragmas, regions):
     return "\n".join(o) + "\n"
 
 
+def emit_proofs(regions):
+    """one disjointness theorem per region of the table, each stated over the generated constant and closed by the
+    generic tactic: a region whose proof fails breaks the build, a new / renamed region needs no hand-written theorem"""
+    o = ["import TapkeeVerif.Gen.OmpRegions", "import TapkeeVerif.Proofs.OmpTactic",
+         "/-! GENERATED by tools/translate_omp.py — do not edit.  `disjoint_<region>` for every region of `Gen/OmpRegions.lean`. -/",
+         "namespace TapkeeVerif.Gen.OmpRegionProofs", "open TapkeeVerif.Omp TapkeeVerif.Gen.OmpRegions", ""]
+    for r in regions:
+        o.append(("/-- %s:%s `%s` in [%s, %s) " % (r["file"], r["line"], r["loopVar"], r["loopLo"], r["loopHi"])).replace("-/", "- /") + "-/")
+        o.append("theorem disjoint_%s : %s.RaceFree := by\n  race_free %s" % (r["name"], r["name"], r["name"]))
+    o.append("")
+    o.append("/-- every region of the table is race free -/")
+    o.append("theorem all_race_free : ∀ r ∈ allRegions, r.RaceFree := by")
+    o.append("  intro r hr")
+    o.append("  simp only [allRegions, List.mem_cons, List.mem_nil_iff, or_false] at hr")
+    o.append("  rcases hr with " + " | ".join("rfl" for _ in regions))
+    for r in regions:
+        o.append("  · exact disjoint_%s" % r["name"])
+    o.append("")
+    o.append("end TapkeeVerif.Gen.OmpRegionProofs")
+    return "\n".join(o) + "\n"
+
+
+PROOFS_PATH = os.path.join(vlib.LEAN_DIR, "TapkeeVerif", "Gen", "OmpRegionProofs.lean")
+
+
 def translate(repo=None, repo_hash=None, out_path=GEN_PATH, log=lambda *a: None):
     repo = repo or vlib.REPO
     repo_hash = repo_hash or vlib.repo_hash()
@@ -1409,17 +1558,21 @@ def translate(repo=None, repo_hash=None, out_path=GEN_PATH, log=lambda *a: None)
     key = hashlib.sha256((repo_hash + TRANSLATOR_VERSION + os.path.abspath(repo)).encode()).hexdigest()[:16]
     cache_dir = os.path.join(base, key)
     os.makedirs(cache_dir, exist_ok=True)
-    # drop caches of other trees (keep the two most recent)
+    # drop caches of other trees, but never one a concurrent run may still be writing (younger than two hours)
     try:
-        others = sorted((d for d in os.listdir(base) if d != key), key=lambda d: os.path.getmtime(os.path.join(base, d)))
-        for d in others[:-2]:
-            shutil.rmtree(os.path.join(base, d), ignore_errors=True)
+        import time
+        for d in os.listdir(base):
+            dp = os.path.join(base, d)
+            if d != key and time.time() - os.path.getmtime(dp) > 7200:
+                shutil.rmtree(dp, ignore_errors=True)
     except OSError:
         pass
     with vlib.Lock("c15_translate"):
         pragmas, regions = analyse(repo, cache_dir, log)
     text = emit_lean(pragmas, regions)
     changed = vlib.write_if_changed(out_path, text)
+    if out_path == GEN_PATH:
+        changed = vlib.write_if_changed(PROOFS_PATH, emit_proofs(regions)) or changed
     summary = {"pragmas": pragmas, "regions": regions, "changed": changed}
     with open(os.path.join(vlib.BUILD_DIR, "c15_regions.json"), "w") as fh:
         json.dump(summary, fh, indent=1, default=str)
